@@ -2001,6 +2001,18 @@ func (k *Kernel) handleReplayedHeader(
 		}
 	}
 
+	// ValidatorSet.Equal does not look at the PubKeys slice,
+	// which is what the signatures below are verified with,
+	// and nothing so far has looked at the contents of the next validator set,
+	// which becomes the voting set of the next height once this header is committed.
+	// Both must be the lists their hashes (covered by the block hash) stand for.
+	if !ValidatorSetMatchesHashes(k.hashScheme, header.ValidatorSet) ||
+		!ValidatorSetMatchesHashes(k.hashScheme, header.NextValidatorSet) {
+		return tmelink.ReplayedHeaderValidationError{
+			Err: errors.New("replayed header's validators or public keys do not match its validator hashes"),
+		}
+	}
+
 	if proof.Round < s.Voting.Round {
 		// There are some edge cases we haven't handled yet with going backwards.
 		// It is a valid case when we saw >2/3 total precommits
@@ -2465,4 +2477,29 @@ func (k *Kernel) updateObservers(ctx context.Context, s *kState) error {
 	})
 
 	return nil
+}
+
+// ValidatorSetMatchesHashes reports whether the validators and public keys in vs
+// hash to the PubKeyHash and VotePowerHash that vs declares.
+func ValidatorSetMatchesHashes(hs tmconsensus.HashScheme, vs tmconsensus.ValidatorSet) bool {
+	if len(vs.Validators) == 0 || len(vs.PubKeys) != len(vs.Validators) {
+		return false
+	}
+	for i, v := range vs.Validators {
+		if v.PubKey == nil || vs.PubKeys[i] == nil || !v.PubKey.Equal(vs.PubKeys[i]) {
+			return false
+		}
+	}
+
+	pubKeyHash, err := hs.PubKeys(vs.PubKeys)
+	if err != nil || !bytes.Equal(pubKeyHash, vs.PubKeyHash) {
+		return false
+	}
+
+	powHash, err := hs.VotePowers(tmconsensus.ValidatorsToVotePowers(vs.Validators))
+	if err != nil || !bytes.Equal(powHash, vs.VotePowerHash) {
+		return false
+	}
+
+	return true
 }
